@@ -110,18 +110,21 @@ def main(ctx, replay=None):
     trace_meta = {sc: [] for sc in sched.SCENARIOS}
     proj_failed = 0
     noninj = 0
-    for sc_run in sched.SCENARIOS + ("neardeg", "endsame", "rearranged"):
+    for sc_run in sched.SCENARIOS + ("neardeg", "endsame", "rearranged", "constant"):
         # "neardeg": three different strain fractions of which two are 3e-4 apart (relative) - different for the code's task equality
         # (numpy.allclose, rtol 1e-5), so the problem instance is the generic one
         # "endsame": two fraction FIELDS that agree at the first and the last volume and differ in between;
         # "rearranged": two fields holding the same values in another order along the volume grid.  Different fields, different tasks.
-        sc = "generic" if sc_run in ("neardeg", "endsame", "rearranged") else sc_run
+        # "constant": three different fractions that do not change along the volume grid (a cell compressing self-similarly)
+        sc = "generic" if sc_run in ("neardeg", "endsame", "rearranged", "constant") else sc_run
         case = draw_case(rng, nq=int(rng.integers(1, 4)), nat=int(rng.integers(1, 4)), low_t=False)
         while sc_run in ("endsame", "rearranged") and len(case["v"]) < 3:
             case = draw_case(rng, nq=int(rng.integers(1, 4)), nat=int(rng.integers(1, 4)), low_t=False)
         duck = DuckCalc(case)
         ntv = len(case["v"])
         strain = base_strain(rng, sc, ntv)
+        if sc_run == "constant":
+            strain = numpy.tile(strain[0], (ntv, 1))
         if sc_run == "neardeg":
             a, b = (0, 1) if rng.random() < 0.5 else (1, 2)
             strain[:, b] = strain[:, a] * (1.0 + 3e-4 * rng.uniform(0.8, 1.2, ntv))
@@ -162,8 +165,11 @@ def main(ctx, replay=None):
         # the scale of the assembled tensor (requests consisting of vanishing components have no scale of their own)
         _ev, _tl, (iso_full, adi_full), _info = run([f"{i}{j}" for i, j in ALLKEYS])
         tensor_scale = 1.0
+        adi_scale = 1.0
         if iso_full is not None:
             tensor_scale = max(float(numpy.max(numpy.abs(numpy.nan_to_num(numpy.asarray(v))))) for v in iso_full.values()) or 1.0
+            # (with a tiny heat capacity the adiabatic tensor is orders of magnitude larger than the isothermal one: its own scale)
+            adi_scale = max([tensor_scale] + [float(numpy.max(numpy.abs(numpy.nan_to_num(numpy.asarray(v), posinf=0.0, neginf=0.0)))) for v in (adi_full or {}).values()])
 
         for sn, seq in enumerate(seqs if sc_run in sched.SCENARIOS else seqs[::2]):
             nontrivial = len(seq) >= 2 or any(int(k[0]) >= 4 or int(k[1]) >= 4 for k in seq)
@@ -189,9 +195,10 @@ def main(ctx, replay=None):
                 if ref is None:
                     continue
                 for which, name in ((0, "isothermal"), (1, "adiabatic")):
-                    if not numpy.all(numpy.isfinite(vals[k][which])) or relerr(vals[k][which], ref[which], scale) > 1e-9:
+                    sc_w = scale if which == 0 else adi_scale
+                    if not numpy.all(numpy.isfinite(vals[k][which])) or relerr(vals[k][which], ref[which], sc_w) > 1e-9:
                         ctx.violation(f"[{sc_run}] c{k} ({name}) differs when requested within {list(seq)} from when requested alone "
-                                      f"(rel. {relerr(vals[k][which], ref[which], scale):.2e})", {**rep, "key": k},
+                                      f"(rel. {relerr(vals[k][which], ref[which], sc_w):.2e})", {**rep, "key": k},
                                       {**sig, "clause": "request_independent"})
                         break
             # (3) every task comes after everything it depends on
@@ -270,7 +277,7 @@ def main(ctx, replay=None):
                                       {"scenario": sc_run, "key": k, "strain": what, "first_strain": strain}, {"scenario": sc_run, "clause": clause})
                         break
         # (6) axis relabelling, on the full tensor
-        if sc_run in sched.SCENARIOS:
+        if sc_run in sched.SCENARIOS or sc_run == "constant":
             check_permutations(ctx, rng, sc, insts[sc], case, strain, run)
         ctx.sample({"scenario": sc_run, "request": list(seqs[min(3, len(seqs) - 1)]), "strain_row0": strain[0].tolist()})
 
@@ -339,6 +346,17 @@ def real_runs(ctx, insts, traces, trace_meta, scr):
             try:
                 calc = run_calc(d / "settings.yaml")
             except Exception as ex:
+                # does the same calculation run in an interpreter of its own?  Then it fails HERE because of what this process has assembled
+                # before (other requests, other strains): a component does not receive its value because of earlier requests.
+                import subprocess
+                import sys
+                pr = subprocess.run([sys.executable, "-W", "ignore", "-c",
+                                     "import sys; from cij.core.calculator import Calculator; Calculator(sys.argv[1])", str(d / "settings.yaml")],
+                                    capture_output=True, text=True, timeout=900)
+                if pr.returncode == 0:
+                    ctx.violation(f"the task list of examples/{name} cannot be assembled in this process ({ex!r}) although the same calculation runs in an "
+                                  f"interpreter of its own: the assembly depends on what was requested before", case, {"clause": "complete_raises", "example": name})
+                    continue
                 raise MachineryError(f"examples/{name} does not run: {ex!r}")
             from cv.e2e import full_modulus_of, phonon_parts
             fm = full_modulus_of(calc)
